@@ -21,6 +21,8 @@ type drvDatagram struct {
 	Addr string `json:"addr"`
 	Port int    `json:"port"`
 	Data string `json:"data"`
+	// pipeline the datagram goes to when it is not the request's own
+	Proto string `json:"proto,omitempty"`
 }
 
 type drvRequest struct {
@@ -44,6 +46,8 @@ type drvPhase struct {
 	Published    []string `json:"published"`
 	DecodedDelta uint64   `json:"decoded_delta"`
 	Mirrored     int      `json:"mirrored"`
+	// payloads published by the other pipelines that had traffic in the phase
+	Others map[string][]string `json:"others,omitempty"`
 }
 
 type drvResponse struct {
